@@ -1,3 +1,4 @@
+import Sparrow.Proofs.PatchAttrsEquiv
 import Sparrow.Proofs.LegKernelEquiv
 import Sparrow.Proofs.Relabel
 import Sparrow.Proofs.PipelineTranslation
@@ -169,3 +170,28 @@ theorem source2patchDistance_translation (pt pt' : (Nat → ℝ) → (Nat → Na
   Sparrow.source2patchDistance_translation pt pt' P B src pc pp pp' vis att t s0 s1 s2 s3 s4 j hj
 
 end Sparrow.Props.C17.SourceLeg
+
+namespace Sparrow.Props.C17.PatchAttrs
+open Sparrow Sparrow.Generated.PatchAttrs Sparrow.Generated.PointFactor
+
+/-- the centre follows a translation of the vertices (any polygon with at least one vertex) -/
+theorem calculateCenter_translate (pts : Nat → Nat → ℝ) (n : Nat) (hn : 0 < n) (t : Nat → ℝ) (q : Nat) :
+    calculateCenter (fun k q => pts k q + t q) n q = calculateCenter pts n q + t q :=
+  Sparrow.calculateCenter_translate pts n hn t q
+
+/-- size, area and normal do not change under a translation -/
+theorem calculateSize_translate (pts : Nat → Nat → ℝ) (t : Nat → ℝ) (q : Nat) :
+    calculateSize (fun k q => pts k q + t q) q = calculateSize pts q :=
+  Sparrow.calculateSize_translate pts t q
+
+
+theorem calculateNormals_translate (pts : Nat → Nat → ℝ) (t : Nat → ℝ) (q : Nat) :
+    calculateNormals (fun k q => pts k q + t q) q = calculateNormals pts q :=
+  Sparrow.calculateNormals_translate pts t q
+
+
+theorem calculateArea_translate (thr : ℝ) (pts : Nat → Nat → ℝ) (n : Nat) (t : Nat → ℝ) :
+    calculateArea thr (fun k q => pts k q + t q) n = calculateArea thr pts n :=
+  Sparrow.calculateArea_translate thr pts n t
+
+end Sparrow.Props.C17.PatchAttrs
